@@ -863,6 +863,52 @@ type leafListNotification struct {
 	leaflists []*sdcpb.TypedValue
 }
 
+// stripPathPrefixes removes the module prefixes from the names of the path elements and of their keys.
+// A key value only loses its prefix if the key leaf is an identityref: the values of other types
+// (IPv6 or MAC addresses, interface names, ...) legitimately contain ':'.
+func (c *Converter) stripPathPrefixes(ctx context.Context, p *sdcpb.Path) error {
+	for i, pe := range p.GetElem() {
+		if j := strings.Index(pe.Name, ":"); j > 0 {
+			pe.Name = pe.Name[j+1:]
+		}
+		if len(pe.GetKey()) == 0 {
+			continue
+		}
+		checkValues := false
+		keys := make(map[string]string, len(pe.GetKey()))
+		for k, v := range pe.GetKey() {
+			if j := strings.Index(k, ":"); j > 0 {
+				k = k[j+1:]
+			}
+			keys[k] = v
+			checkValues = checkValues || strings.Contains(v, ":")
+		}
+		pe.Key = keys
+		if !checkValues {
+			continue
+		}
+		rsp, err := c.schemaClientBound.GetSchemaSdcpbPath(ctx, &sdcpb.Path{Elem: p.GetElem()[:i+1]})
+		if err != nil {
+			return err
+		}
+		for _, ks := range rsp.GetSchema().GetContainer().GetKeys() {
+			v, ok := pe.Key[ks.GetName()]
+			if !ok || !strings.Contains(v, ":") {
+				continue
+			}
+			ktv, err := TypedValueToYANGType(&sdcpb.TypedValue{Value: &sdcpb.TypedValue_StringVal{StringVal: v}},
+				&sdcpb.SchemaElem{Schema: &sdcpb.SchemaElem_Field{Field: ks}})
+			if err != nil {
+				continue
+			}
+			if _, isIdentity := ktv.GetValue().(*sdcpb.TypedValue_IdentityrefVal); isIdentity {
+				pe.Key[ks.GetName()] = TypedValueToString(ktv)
+			}
+		}
+	}
+	return nil
+}
+
 func (c *Converter) ConvertNotificationTypedValues(ctx context.Context, n *sdcpb.Notification) (*sdcpb.Notification, error) {
 	// this map serves as a context to group leaf-lists
 	// sent as keys in separate updates.
@@ -874,7 +920,10 @@ func (c *Converter) ConvertNotificationTypedValues(ctx context.Context, n *sdcpb
 	}
 	// convert typed values to their YANG type
 	for _, upd := range n.GetUpdate() {
-		StripPathElemPrefixPath(upd.GetPath())
+		err := c.stripPathPrefixes(ctx, upd.GetPath())
+		if err != nil {
+			return nil, err
+		}
 		scRsp, err := c.schemaClientBound.GetSchemaSdcpbPath(ctx, upd.GetPath())
 		if err != nil {
 			return nil, err
